@@ -199,7 +199,14 @@ class Gen(object):
         pool = list(own_l) * 2 + line_refs
         if hz_l and r.random() < 0.07:
             pool = hz_l
-        return {"k": "ln", "n": r.choice(pool), "br": br()}
+        via = r.random()
+        node = {"k": "ln", "n": r.choice(pool), "br": br()}
+        if via < 0.08:
+            node["via"] = "get"          # v.get(name, 0): the accessor is a Mapping; still a demand for the line
+        elif via < 0.12:
+            node["via"] = "in"           # `name in v`
+            node["br"] = node["br"][:1]
+        return node
 
 
 HANDMADE = [
@@ -233,6 +240,41 @@ HANDMADE = [
                          "body": {"1": {"k": "in", "n": "b.x", "br": [{"k": "ret", "e": "acc", "c": 0}, {"k": "ln", "n": "z.1", "br": [{"k": "ret", "e": "acc", "c": 0}]}]}}},
                    "b": {"instances": None, "inputs": ["x"], "req": ["1"], "opt": [],
                          "body": {"1": {"k": "ret", "e": "const", "c": 1}}}},
+     "unknown": ["z"], "request": ["a"], "fieldNames": []},
+    # a cycle through OPTIONAL lines of a form that is already loaded (each is demanded by a line, never required)
+    {"catalogue": {"a": {"instances": None, "inputs": [], "req": ["1", "10"], "opt": ["2", "3"],
+                         "body": {"1": {"k": "ln", "n": "2", "br": [{"k": "ret", "e": "acc", "c": 0}]},
+                                  "10": {"k": "ln", "n": "3", "br": [{"k": "ret", "e": "acc", "c": 0}]},
+                                  "2": {"k": "ln", "n": "2", "br": [{"k": "ret", "e": "acc", "c": 0}]},
+                                  "3": {"k": "ln", "n": "2", "br": [{"k": "ln", "n": "3", "br": [{"k": "ret", "e": "acc", "c": 0}]}]}}}},
+     "unknown": ["z"], "request": ["a"], "fieldNames": []},
+    # an optional line with many users (it must still be evaluated once)
+    {"catalogue": {"a": {"instances": None, "inputs": ["x"], "req": ["10", "12", "7", "3"], "opt": ["1b"],
+                         "body": {"10": {"k": "ln", "n": "1b", "br": [{"k": "ret", "e": "acc", "c": 0}]},
+                                  "12": {"k": "ln", "n": "1b", "br": [{"k": "ret", "e": "acc", "c": 0}]},
+                                  "7": {"k": "ln", "n": "1b", "br": [{"k": "ret", "e": "acc", "c": 0}]},
+                                  "3": {"k": "ln", "n": "1b", "br": [{"k": "ret", "e": "acc", "c": 0}]},
+                                  "1b": {"k": "in", "n": "x", "br": [{"k": "ret", "e": "acc", "c": 0}]}}}},
+     "unknown": ["z"], "request": ["a"], "fieldNames": []},
+    # a cycle through OPTIONAL lines of a form that is already loaded (each is demanded by a line, never required)
+    {"catalogue": {"a": {"instances": None, "inputs": [], "req": ["1", "10"], "opt": ["2", "3"],
+                         "body": {"1": {"k": "ln", "n": "2", "br": [{"k": "ret", "e": "acc", "c": 0}]},
+                                  "10": {"k": "ln", "n": "3", "br": [{"k": "ret", "e": "acc", "c": 0}]},
+                                  "2": {"k": "ln", "n": "2", "br": [{"k": "ret", "e": "acc", "c": 0}]},
+                                  "3": {"k": "ln", "n": "2", "br": [{"k": "ln", "n": "3", "br": [{"k": "ret", "e": "acc", "c": 0}]}]}}}},
+     "unknown": ["z"], "request": ["a"], "fieldNames": []},
+    # an optional line with many users (it must still be evaluated once)
+    {"catalogue": {"a": {"instances": None, "inputs": ["x"], "req": ["10", "12", "7", "3"], "opt": ["1b"],
+                         "body": {"10": {"k": "ln", "n": "1b", "br": [{"k": "ret", "e": "acc", "c": 0}]},
+                                  "12": {"k": "ln", "n": "1b", "br": [{"k": "ret", "e": "acc", "c": 0}]},
+                                  "7": {"k": "ln", "n": "1b", "br": [{"k": "ret", "e": "acc", "c": 0}]},
+                                  "3": {"k": "ln", "n": "1b", "br": [{"k": "ret", "e": "acc", "c": 0}]},
+                                  "1b": {"k": "in", "n": "x", "br": [{"k": "ret", "e": "acc", "c": 0}]}}}},
+     "unknown": ["z"], "request": ["a"], "fieldNames": []},
+    # a line read through the Mapping API (v.get) that turns out unimplemented
+    {"catalogue": {"a": {"instances": None, "inputs": [], "req": ["1"], "opt": ["2"],
+                         "body": {"1": {"k": "ln", "via": "get", "n": "2", "br": [{"k": "ret", "e": "acc", "c": 0}]},
+                                  "2": {"k": "unimpl"}}}},
      "unknown": ["z"], "request": ["a"], "fieldNames": []},
     # the same form requested twice
     {"catalogue": {"a": {"instances": None, "inputs": ["x"], "req": ["1"], "opt": [],
@@ -268,7 +310,16 @@ def build_forms(prog):
             t, acc = tree, 0
             while True:
                 k = t["k"]
-                if k == "in" or k == "ln":
+                if k == "ln" and t.get("via") == "get":
+                    val = v.get(t["n"], 0)
+                    acc = (acc + val) % 2
+                    t = t["br"][0 if len(t["br"]) == 1 else val]
+                elif k == "ln" and t.get("via") == "in":
+                    val = 1 if (t["n"] in v) else 0      # always present once the line has been computed
+                    val = v[t["n"]] if val else 0
+                    acc = (acc + val) % 2
+                    t = t["br"][0]
+                elif k == "in" or k == "ln":
                     val = (i if k == "in" else v)[t["n"]]
                     acc = (acc + val) % 2
                     t = t["br"][0 if len(t["br"]) == 1 else val]
